@@ -143,3 +143,12 @@ Print Assumptions C09_src_pin_backup_get_backup_path.
 Print Assumptions C09_src_pin_backup_has_backup.
 Print Assumptions C09_src_pin_backup_is_num_backup.
 Print Assumptions C09_src_pin_operations_new.
+
+(* ---- nothing is carried from one file of a run to the next: the inventory of process-wide state (statics,
+   thread-locals, umask calls) of the current source, regenerated by the translator on every run ---- *)
+From XcpProofs Require Import XState.
+From Coq Require Import String.
+Theorem C09_src_no_state_carried_between_files :
+  x_static_items = ["libxcp/src/backup.rs::BAK_REGEX"%string] /\ x_thread_locals = [] /\ x_umask_calls = 0%N.
+Proof. exact x_process_wide_state_ok. Qed.
+Print Assumptions C09_src_no_state_carried_between_files.
